@@ -80,6 +80,16 @@ func harness_C18_report() {
 		verifStop()
 	}
 	meta := qd.meta
+	// arbitrary valid pre-state: an earlier attempt may already have failed
+	// (and reported) another recipient; its traces stay in the metadata
+	preFailed := nondetBool("preFailed")
+	if preFailed {
+		meta.FailedRcpts = []string{"old@example.org"}
+		meta.RcptErrs["old@example.org"] = &smtpErr{Code: 550, EnhancedCode: smtpEnhCode{5, 1, 1}, Message: "old failure"}
+		if err := q.updateMetadataOnDisk(meta); err != nil {
+			verifStop()
+		}
+	}
 
 	q.tryDelivery(meta, hdr, qd.body)
 
@@ -175,6 +185,9 @@ func harness_C18_report() {
 			}
 			verifCover("C18.status-checked")
 		}
+	}
+	if bytes.Contains(body, []byte("old@example.org")) {
+		verifFail("C18.report-names-recipient-of-an-earlier-attempt")
 	}
 	if !bytes.Contains(body, []byte("Subject: c18 original message\r\n")) {
 		verifFail("C18.original-header-missing")
